@@ -301,6 +301,9 @@ func (c *checkSchema) collectAllowedJsonTypes(node ischema.Node, ss map[string]i
 		}
 		c.foundTypeNames[typeName] = struct{}{}
 		c.collectAllowedJsonTypes(getType(typeName, c.rootSchema, ss).RootNode(), ss) // can panic
+		// Only the current path counts: a type reached twice over different
+		// branches is not a recursion.
+		delete(c.foundTypeNames, typeName)
 	}
 }
 
